@@ -79,7 +79,7 @@ def _dump_one(repo, crate, pkg, out_path, release):
     env['CARGO_NET_OFFLINE'] = 'true'
     env['CARGO_TARGET_DIR'] = TARGET
     env.pop('RUSTFLAGS', None)
-    tmp = out_path + '.tmp'
+    tmp = out_path + '.tmp%d' % os.getpid()
     with open(tmp, 'wb') as fo:
         p = subprocess.run(cmd, cwd=repo, env=env, stdout=fo, stderr=subprocess.PIPE)
     if p.returncode != 0:
